@@ -142,7 +142,8 @@ def function_spans(text):
             inner_fn = [c[2] for c in ctx if c[1] == 'fn']
             qual = '::'.join(mods + types[-1:] + inner_fn + [fname])
             res.append({'name': qual, 'module': mods[0] if mods else '', 'start': line(t[2]),
-                        'end': line(toks[endtok][2]), 'has_body': toks[code[j]][1] == '{'})
+                        'end': line(toks[endtok][2]), 'has_body': toks[code[j]][1] == '{',
+                        'body_off': toks[code[j]][3] if toks[code[j]][1] == '{' else None})
             if toks[code[j]][1] == '{':
                 ctx.append((endtok, 'fn', fname))
             k = j + 1
@@ -464,6 +465,27 @@ def main():
     sys.exit(rc)
 
 
+def vacuity_run(text, linemap, mods, units, sub):
+    """Reachability guard: `assert(false)` is placed at the entry of every function under contract; each of them must
+    FAIL -- a function in which it verifies has an unsatisfiable precondition (or wf invariant), so everything proved
+    about it would be vacuous.  -> list of vacuous function names"""
+    spans = [f for f in function_spans(text) if f['has_body'] and f['module'] in mods
+             and units.get(f['name'], {}).get('status') == 'verify']
+    out = text
+    for f in sorted(spans, key=lambda f: -f['body_off']):
+        out = out[:f['body_off']] + ' proof { assert(false); } ' + out[f['body_off']:]
+    vdir = os.path.join(sub, 'vacuity')
+    os.makedirs(vdir, exist_ok=True)
+    vpath = os.path.join(vdir, 'mirror.rs')
+    open(vpath, 'w').write(out)
+    res = run_verus(vpath, mods, threads=16)
+    if res['json'] is None:
+        return None, ['vacuity run produced no result']
+    ok = set(r['function'].split('::', 1)[1] for r in breakdown(res['json']) if r['success'])
+    vac = [f['name'] for f in spans if f['name'] in ok]
+    return len(spans), vac
+
+
 def undecided_witness(pid, cfg, all_undec, seed, work, units):
     if os.environ.get('VERIF_NO_WITNESS'):
         return None
@@ -513,6 +535,7 @@ def decide(pid, cfg, tier, seed, units, work, ev):
     cmds = []
     solver_ms = 0
     modules_info = None
+    extra_cov = {}
     def one(fs):
         with BUILD_LOCK:   # the desugaring catalogue keeps per-text counters: mirrors are built one at a time
             # only the modules of the property and what they mention are mirrored: a change elsewhere cannot make this
@@ -540,6 +563,11 @@ def decide(pid, cfg, tier, seed, units, work, ev):
                 other = sorted((x['function'], x['message'], x['clause']) for x in f2)
                 if base != other:
                     extra_undec.append('unstable proof: result differs under smt.random_seed=%d' % (seed * 7 + k))
+            n, vac = vacuity_run(text, linemap, mods, units, sub)
+            extra_cov['vacuity_guard'] = {'functions_with_assert_false_at_entry': n, 'verified_anyway': vac,
+                                          'meaning': 'assert(false) at the entry of every function under contract must fail'}
+            for v in vac:
+                extra_undec.append('vacuous contract: assert(false) at the entry of %s verifies (unsatisfiable precondition)' % v)
         return fs, text, linemap, info, res, fails, undec + extra_undec, sub
 
     import concurrent.futures
@@ -619,6 +647,7 @@ def decide(pid, cfg, tier, seed, units, work, ev):
         'undecided': all_undec,
         'explanation': cfg.get('what', ''),
     }
+    ev['coverage'].update(extra_cov)
     ev['assumptions'] = cfg.get('assumptions', []) + ['see coverage.trusted_base for the mechanical scan of assume_specification / external_body items']
     if not fn_rows and not all_undec:
         print('UNDECIDED property=%s no obligations generated' % pid)
